@@ -4,9 +4,11 @@ import (
 	"encoding/json"
 	"fmt"
 	"math/rand"
+	"strings"
 	"unicode/utf8"
 
 	"github.com/benoitkugler/webrender/css/parser"
+	"github.com/benoitkugler/webrender/css/selector"
 
 	"verif/internal/csscmp"
 	"verif/internal/fw"
@@ -69,6 +71,8 @@ func init() {
 				return c20In{Src: gen.Soup(r, 6), Mode: "tokens"}
 			case 1:
 				return c20In{Src: c20RuleText(r), Mode: "rules"}
+			case 3:
+				return c20In{Src: c20Selector(r), Mode: "prelude"}
 			case 2:
 				return c20In{Src: gen.EscIdent(r, []rune(gen.Pick(r, []string{"color", "-x", "--v", "1a", "a b", "é"}))) + gen.Pick(r, []string{":", " : ", "/**/:"}) + gen.CleanList(r, 1, 4) + gen.Pick(r, []string{"", "!important", " ! IMPORTANT"}), Mode: "decl"}
 			}
@@ -79,6 +83,41 @@ func init() {
 		Assumptions: []string{"the first tokenization L is webrender's own (pure round-trip relation, no reference tokenizer)", "inputs are valid UTF-8", "lists with parse-error tokens or EOF-flagged strings/urls are outside the property and skipped"},
 		Batch:       5000,
 	})
+}
+
+// c20Selector prints a selector with names that need escapes, comments and odd spacing: the text the
+// cascade hands to the selector parser is Serialize(prelude), not the author's text.
+func c20Selector(r *rand.Rand) string {
+	name := func() string {
+		return gen.EscIdent(r, []rune(gen.Pick(r, []string{"a", "div", "c1", "1a", "-x", "--y", "a b", "é", "a.b", "x:y", "-", "9"})))
+	}
+	simple := func() string {
+		switch r.Intn(9) {
+		case 0:
+			return "." + name()
+		case 1:
+			return "#" + name()
+		case 2:
+			return "[" + name() + gen.Pick(r, []string{"=", "~=", "|=", "^=", "$=", "*="}) + gen.Pick(r, []string{gen.EscString(r, []rune(gen.Pick(r, []string{"v", "a b", "q\"q", "", "x\ny"}))), name()}) + gen.Pick(r, []string{"", " i", " s"}) + "]"
+		case 3:
+			return gen.Pick(r, []string{":first-child", ":nth-child(2n+1)", ":nth-child( -n + 3 )", ":not(" + name() + ")", ":is(." + name() + ", #" + name() + ")", ":has(> " + name() + ")", "::before", ":root", ":empty", ":nth-of-type(odd)"})
+		case 4:
+			return "*"
+		}
+		return name()
+	}
+	n := 1 + r.Intn(4)
+	var sb strings.Builder
+	for i := 0; i < n; i++ {
+		if i > 0 {
+			sb.WriteString(gen.Pick(r, []string{" ", " > ", ">", " + ", "~", ", ", ",", "/**/ ", " /**/ > /**/"}))
+		}
+		sb.WriteString(simple())
+		if r.Intn(3) == 0 {
+			sb.WriteString(gen.Pick(r, []string{"", "/**/", ""}) + simple())
+		}
+	}
+	return sb.String()
 }
 
 func c20RuleText(r *rand.Rand) string {
@@ -191,6 +230,43 @@ func c20Check(raw json.RawMessage) fw.Result {
 			res.Count("rules_roundtripped", 1)
 			res.Nontrivial = true
 		}
+	case "prelude":
+		rules := parser.ParseStylesheetBytes([]byte(in.Src+" {}"), false, false)
+		var prelude []parser.Token
+		n := 0
+		for _, ru := range rules {
+			if q, ok := ru.(parser.QualifiedRule); ok {
+				prelude = q.Prelude
+				n++
+			}
+		}
+		if n != 1 || csscmp.HasError(csscmp.From(prelude, c20opt)) {
+			res.Verdict = fw.Skip
+			return res
+		}
+		g1, err1 := selector.ParseGroup(in.Src)
+		ser := parser.Serialize(prelude)
+		g2, err2 := selector.ParseGroup(ser)
+		if (err1 == nil) != (err2 == nil) {
+			res.Fail("prelude-selector-accept", fmt.Sprintf("selector text %q: ParseGroup says err=%v, but for Serialize(prelude)=%q it says err=%v", in.Src, err1, ser, err2))
+			return res
+		}
+		if err1 != nil {
+			res.Count("preludes_rejected_both", 1)
+			return res
+		}
+		if len(g1) != len(g2) {
+			res.Fail("prelude-selector-equiv", fmt.Sprintf("selector text %q parses to %d selectors, Serialize(prelude)=%q to %d", in.Src, len(g1), ser, len(g2)))
+			return res
+		}
+		for i := range g1 {
+			if g1[i].String() != g2[i].String() || g1[i].Specificity() != g2[i].Specificity() || g1[i].PseudoElement() != g2[i].PseudoElement() {
+				res.Fail("prelude-selector-equiv", fmt.Sprintf("selector text %q and Serialize(prelude)=%q give different selectors: %q vs %q", in.Src, ser, g1[i].String(), g2[i].String()))
+				return res
+			}
+		}
+		res.Count("preludes_equivalent", 1)
+		res.Nontrivial = true
 	case "decl":
 		d := parser.ParseOneDeclaration(parser.Tokenize([]byte(in.Src), false))
 		decl, ok := d.(parser.Declaration)
